@@ -859,6 +859,9 @@ def _lookup_guard(f: FuncInfo, sub: ast.Subscript, d: str, pm: dict) -> str | No
             safe_why = 'membership test'
         if isinstance(t_, ast.Compare) and len(t_.ops) == 1 and isinstance(t_.ops[0], ast.Eq) and pol and norm(t_.left) == key:
             safe_why = 'equality with a constant key'
+        # `D.announced(key)`: a membership test spelt as a method (Capabilities.announced is `return capability in self`)
+        if pol and isinstance(t_, ast.Call) and isinstance(t_.func, ast.Attribute) and t_.func.attr in ('announced', '__contains__', 'has_key') and dotted(t_.func.value) == d and t_.args and norm(t_.args[0]) == key:
+            safe_why = 'membership test (%s)' % t_.func.attr
     p_ = pm.get(id(sub))
     while p_ is not None and p_ is not f.node and safe_why is None:
         if isinstance(p_, ast.Try) and any(set(handler_names(h)) & {'KeyError', 'Exception', '*', 'LookupError'} for h in p_.handlers) and any(sub is x for b in p_.body for x in ast.walk(b)):
@@ -875,6 +878,11 @@ def _lookup_guard(f: FuncInfo, sub: ast.Subscript, d: str, pm: dict) -> str | No
         if created:
             safe_why = 'entry created in this function'
     return safe_why
+
+
+R10_TRIAGED = {
+    ('Protocol.write', 'self.peer.stats'): 'send counters: from the receive path only NOTIFICATION is written (send-notification exists, like open / update / refresh / keepalive); an OPERATIONAL message is sent on operator request, not because of peer input',
+}
 
 
 # class-table lookups whose key is known to be present although no guard shows it (confirmed by reading)
@@ -1031,6 +1039,9 @@ def _reader_functions(model: Model, cg: CallGraph, dec: set[str]) -> tuple[set[s
     F1 adds what they hand a Message to."""
     f0 = {q for q, v in cg.edges.items() if MESSAGE_UNPACK in v and q not in dec and q in model.funcs}
     f = f0 | {q for q, v in cg.edges.items() if v & f0 and q in model.funcs}
+    # ... and who calls those (Peer._establish / _read_open: the OPEN goes on to the negotiation from there)
+    for _ in range(4):
+        f |= {q for q, v in cg.edges.items() if v & f and q in model.funcs and (q.startswith('exabgp.reactor.peer.peer.') or q.startswith('exabgp.reactor.protocol.'))}
     f1 = set(f)
     for q in f:
         fi = model.funcs[q]
@@ -1038,8 +1049,16 @@ def _reader_functions(model: Model, cg: CallGraph, dec: set[str]) -> tuple[set[s
             if isinstance(c, ast.Call):
                 for a in c.args:
                     t = model.type_of(fi.module, a)
-                    if t.endswith('message.Message') or t.endswith('message.Message | None'):
+                    if t.endswith('message.Message') or t.endswith('message.Message | None') or any(k in model.classes and model.is_subclass(k, 'exabgp.bgp.message.message.Message') for k in model.type_classes(fi.module, a)):
                         f1 |= {t2 for t2 in model.callees_cha(fi.module, c) if t2 in model.funcs and t2.startswith('exabgp.')}
+    # what a function that was handed the message calls on its own object (Negotiated.received -> _negotiate)
+    for q in list(f1 - f):
+        fi = model.funcs[q]
+        if fi.cls is None:
+            continue
+        for c in walk_no_nested(fi.node):
+            if isinstance(c, ast.Call) and isinstance(c.func, ast.Attribute) and dotted(c.func.value) == 'self':
+                f1 |= {t for t in model.callees_cha(fi.module, c) if t in model.funcs and t.rsplit('.', 1)[0] == q.rsplit('.', 1)[0]}
     return f, f1
 
 
@@ -1183,6 +1202,8 @@ def _r10_r11_readers(model: Model, run: Run, cg: CallGraph, dec: set[str]) -> No
             why = _lookup_guard(f, sub, d, pm)
             if why is None:
                 why = _registry_covers(model, f, sub)
+            if why is None and (short(q), d) in R10_TRIAGED:
+                why = 'triaged: ' + R10_TRIAGED[(short(q), d)]
             inst = '%s: %s' % (short(q), norm(sub)[:50])
             if why is not None:
                 run.ok(inst, why)
